@@ -29,6 +29,8 @@ def cid_rows(config, columns):
     item, quote, escape, quoting, line = config
     rows = [["D", "Format", "Delimited"], ["D", "Item delimiter", spell(item)], ["D", "Quote character", quote], ["D", "Escape character", escape],
             ["D", "Quoting", quoting], ["D", "Line delimiter", line], ["D", "Encoding", "utf-8"]]
+    if ord(item) % 2 == 1:
+        rows[2], rows[3] = rows[3], rows[2]  # the escape character declared before the quote character in half of the configurations
     if ord(quote) % 2 == 0:
         rows.append(["D", "Skip initial space", "False"])  # declared explicitly in half of the configurations (the default is the same)
     for index in range(columns):
